@@ -12,6 +12,8 @@ import time
 from . import check as chk
 
 ROOT = chk.ROOT
+# evidence/ and replays/ go under VERIF_OUT when set (development runs against a scratch copy of the repository)
+OUT = os.environ.get("VERIF_OUT", ROOT)
 
 
 def _san(s):
@@ -201,7 +203,7 @@ def match_known(known, text):
 
 def handle_failed(P, rep, r, ob, known, build):
     pid = rep.pid
-    d = os.path.join(ROOT, "replays", pid)
+    d = os.path.join(OUT, "replays", pid)
     os.makedirs(d, exist_ok=True)
     path = os.path.join(d, _san(ob["name"]) + ".json")
     doc = {"property": pid, "obligation": ob["name"], "kind": ob["kind"], "function": r["function"],
@@ -238,7 +240,7 @@ def handle_failed(P, rep, r, ob, known, build):
 
 
 def handle_bounded_violation(rep, pid, b, v, known):
-    d = os.path.join(ROOT, "replays", pid)
+    d = os.path.join(OUT, "replays", pid)
     os.makedirs(d, exist_ok=True)
     path = os.path.join(d, _san("bounded_%s_%s" % (b["name"], v.get("clause", "clause"))) + ".json")
     doc = {"property": pid, "bounded_standin": b["name"], "replayed": True}
@@ -335,5 +337,5 @@ def write_evidence(P, rep, tier, seed, wall, n_ob, n_dis, solver_time, backends,
     ev = {"property_id": pid, "tier": tier if tier in ("quick", "thorough") else "quick", "seed": seed,
           "level": level_out, "coverage": cov, "assumptions": sorted(set(assumptions)),
           "wall_s": round(wall, 2), "violations": len(rep.violations)}
-    os.makedirs(os.path.join(ROOT, "evidence"), exist_ok=True)
-    json.dump(ev, open(os.path.join(ROOT, "evidence", pid + ".json"), "w"), indent=1, default=str)
+    os.makedirs(os.path.join(OUT, "evidence"), exist_ok=True)
+    json.dump(ev, open(os.path.join(OUT, "evidence", pid + ".json"), "w"), indent=1, default=str)
